@@ -7,6 +7,7 @@ use crate::{Board, BoardValidationError};
 /// One assertion per clause so that a refutation names the clause.
 #[kani::proof]
 #[kani::unwind(9)]
+#[kani::stub(crate::Board::is_legal_king_position, king_position_contract_stub)]
 fn c06_validate_sound() {
     let b = any_board();
     let p = view(&b);
@@ -23,6 +24,7 @@ fn c06_validate_sound() {
 /// legally reachable position is accepted')
 #[kani::proof]
 #[kani::unwind(9)]
+#[kani::stub(crate::Board::is_legal_king_position, king_position_contract_stub)]
 fn c06_validate_complete() {
     let b = any_board();
     let p = view(&b);
@@ -35,6 +37,7 @@ fn c06_validate_complete() {
 /// error classification: which error for which violated clause (first failing clause in the code's order)
 #[kani::proof]
 #[kani::unwind(9)]
+#[kani::stub(crate::Board::is_legal_king_position, king_position_contract_stub)]
 fn c06_validate_errors() {
     let b = any_board();
     let p = view(&b);
@@ -178,6 +181,7 @@ fn pin_info_contract_stub(b: &mut Board) {
 #[kani::proof]
 #[kani::unwind(9)]
 #[kani::stub(crate::Board::update_pin_info, pin_info_contract_stub)]
+#[kani::stub(crate::Board::is_legal_king_position, king_position_contract_stub)]
 fn c06_build() {
     let inner = any_board();
     let builder = crate::BoardBuilder { board: inner };
@@ -196,6 +200,7 @@ fn c06_build() {
 
 #[kani::proof]
 #[kani::unwind(9)]
+#[kani::stub(crate::Board::is_legal_king_position, king_position_contract_stub)]
 fn c06_cover() {
     let b = any_board();
     let p = view(&b);
@@ -210,6 +215,7 @@ fn c06_cover() {
 /// negated twin: must be refuted
 #[kani::proof]
 #[kani::unwind(9)]
+#[kani::stub(crate::Board::is_legal_king_position, king_position_contract_stub)]
 fn c06_negtwin() {
     let b = any_board();
     assert!(b.validate().is_err());
